@@ -1,1 +1,212 @@
-import BigtreeModel.Basic
+import BigtreeModel.Dag
+import BigtreeProofs.Lemmas.DagClosure
+import BigtreeProofs.Lemmas.DagIter
+import BigtreeProofs.Lemmas.DagGoTo
+/-! # C16 — DAG traversal and queries agree with graph-theoretic definitions
+
+Model: `BigtreeModel/Dag.lean` (`dagIter`, `ancestors`, `descendants`, `siblings`, `goTo` written
+the way the Python is written). `DWF g` = links closed in `nodes`, symmetric, duplicate-free,
+acyclic (what the DAGNode setters maintain, C10). -/
+
+namespace C16
+open Dag List
+
+/-! ## example DAGs for the non-vacuity checks -/
+
+/-- diamond 0→1, 0→2, 1→3, 2→3 -/
+def diamond : Dag := ofEdges 4 [(0, 1), (0, 2), (1, 3), (2, 3)]
+/-- node 0 has three parents 1, 2, 3; the third one is the only way to 4→3 and 4→5 -/
+def threeParents : Dag := ofEdges 6 [(1, 0), (2, 0), (3, 0), (4, 3), (4, 5)]
+/-- the docstring DAG of `dag_iterator` (a, b, c, d, e = 0 … 4), edges in its construction order -/
+def docDag : Dag := ofEdges 5 [(0, 2), (1, 2), (0, 3), (2, 3), (3, 4)]
+
+theorem diamond_wf : DWF diamond :=
+  ⟨by decide, by decide, by decide, by decide, by decide,
+   acyclic_of_rank id (by decide) (by decide)⟩
+
+/-- rank for `threeParents`: 4 < 1, 2, 3, 5 < 0 -/
+def rank3 : Nat → Nat
+  | 4 => 0 | 0 => 2 | _ => 1
+
+theorem threeParents_wf : DWF threeParents :=
+  ⟨by decide, by decide, by decide, by decide, by decide,
+   acyclic_of_rank rank3 (by decide) (by decide)⟩
+
+theorem docDag_wf : DWF docDag :=
+  ⟨by decide, by decide, by decide, by decide, by decide,
+   acyclic_of_rank id (by decide) (by decide)⟩
+
+/-- a decidable certificate of weak connectivity: the model's own visited set (sound by
+    `visit_sound`) -/
+theorem connected_from_of_run {g : Dag} {v : Nat} (h : ∀ u ∈ g.nodes, u ∈ (g.dagRun v).vis) :
+    ∀ u ∈ g.nodes, g.UReach v u :=
+  fun u hu => visit_sound v _ v _ (.refl v) (by simp) u (h u hu)
+
+/-! ## dag_iterator -/
+
+/-- Edge membership, for every start node of every well-formed DAG: the pairs yielded are exactly
+    the edges (oriented parent → child) of the weakly connected component of the start node. -/
+theorem dag_iter_mem {g : Dag} (wf : DWF g) {v : Nat} (hv : v ∈ g.nodes) (e : Edge) :
+    e ∈ g.dagIter v ↔ e ∈ g.edges ∧ g.UReach v e.1 :=
+  mem_dagIter wf hv
+
+example : (3, 0) ∈ threeParents.edges ∧ threeParents.UReach 0 3 :=
+  (dag_iter_mem threeParents_wf (by decide) (3, 0)).1 (by decide)
+
+/-- No pair is yielded twice. -/
+theorem dag_iter_nodup {g : Dag} (wf : DWF g) {v : Nat} (hv : v ∈ g.nodes) :
+    (g.dagIter v).Nodup :=
+  nodup_dagIter wf hv
+
+example : (diamond.dagIter 3).Nodup := dag_iter_nodup diamond_wf (by decide)
+
+/-- **Tier 1.** On a well-formed DAG in which every node is weakly connected to the start node,
+    `dag_iterator` yields a permutation of the edge list: every edge exactly once, as
+    (parent, child). -/
+theorem dag_iter_edges {g : Dag} (wf : DWF g) {v : Nat} (hv : v ∈ g.nodes)
+    (hconn : ∀ u ∈ g.nodes, g.UReach v u) : (g.dagIter v).Perm g.edges := by
+  rw [perm_ext_iff_of_nodup (nodup_dagIter wf hv) (nodup_edges wf)]
+  intro e
+  rw [mem_dagIter wf hv]
+  exact ⟨fun h => h.1, fun h => ⟨h, hconn _ (mem_edges.1 h).1⟩⟩
+
+/-- the same for a weakly connected DAG (`Connected`), from any start node -/
+theorem dag_iter_edges_connected {g : Dag} (wf : DWF g) (hc : g.Connected) {v : Nat}
+    (hv : v ∈ g.nodes) : (g.dagIter v).Perm g.edges :=
+  dag_iter_edges wf hv (fun u hu => hc v hv u hu)
+
+-- non-vacuity: diamond from the sink, the three-parent DAG from the child, the docstring DAG
+example : (diamond.dagIter 3).Perm diamond.edges :=
+  dag_iter_edges diamond_wf (by decide) (connected_from_of_run (by decide))
+example : (threeParents.dagIter 0).Perm threeParents.edges :=
+  dag_iter_edges threeParents_wf (by decide) (connected_from_of_run (by decide))
+example : threeParents.dagIter 0 = [(1, 0), (2, 0), (3, 0), (4, 3), (4, 5)] := by decide
+example : docDag.dagIter 0 = [(0, 2), (0, 3), (1, 2), (2, 3), (3, 4)] := by decide
+example : docDag.dagIter 2 = [(0, 2), (1, 2), (2, 3), (0, 3), (3, 4)] := by decide
+
+/-- The fuel of the model is enough: any larger fuel gives the same run (so `dagIter` is the
+    result of the unbounded recursion). -/
+theorem fuel_suffices {g : Dag} (wf : DWF g) {v : Nat} (hv : v ∈ g.nodes) {f : Nat}
+    (hf : g.fuel ≤ f) : visit g f v ⟨[], []⟩ = g.dagRun v :=
+  visit_fuel wf g.fuel v ⟨[], []⟩ hv (by simp) (by simp) (unv_nil_le g) f hf
+
+example : visit diamond 50 0 ⟨[], []⟩ = diamond.dagRun 0 :=
+  fuel_suffices diamond_wf (by decide) (by decide)
+
+/-! ## closures -/
+
+/-- **Tier 1.** `ancestors` lists exactly the nodes that can reach `v`, each once. -/
+theorem ancestors_eq_reach {g : Dag} (wf : DWF g) {v : Nat} (hv : v ∈ g.nodes) :
+    (∀ x, x ∈ g.ancestors v ↔ x ∈ g.nodes ∧ g.Reach x v) ∧ (g.ancestors v).Nodup := by
+  refine ⟨fun x => mem_ancestors wf hv, ?_⟩
+  unfold ancestors
+  split
+  · simp
+  · exact nodup_dedup _
+
+example : diamond.ancestors 3 = [0, 1, 2] := by decide
+example : ∀ x, x ∈ diamond.ancestors 3 ↔ x ∈ diamond.nodes ∧ diamond.Reach x 3 :=
+  (ancestors_eq_reach diamond_wf (by decide)).1
+example : threeParents.ancestors 0 = [1, 2, 4, 3] := by decide
+
+/-- **Tier 1.** `descendants` lists exactly the nodes `v` can reach, each once. -/
+theorem descendants_eq_reach {g : Dag} (wf : DWF g) {v : Nat} (hv : v ∈ g.nodes) :
+    (∀ x, x ∈ g.descendants v ↔ g.Reach v x) ∧ (g.descendants v).Nodup :=
+  ⟨fun _ => mem_descendants wf hv, nodup_dedup _⟩
+
+example : diamond.descendants 0 = [1, 3, 2] := by decide
+example : ∀ x, x ∈ diamond.descendants 0 ↔ diamond.Reach 0 x :=
+  (descendants_eq_reach diamond_wf (by decide)).1
+
+/-- **Tier 1.** `siblings`, as a set, are the other children of the node's parents
+    (no well-formedness needed; the tuple may repeat a node that shares several parents). -/
+theorem siblings_eq (g : Dag) (v x : Nat) :
+    x ∈ g.siblings v ↔ x ≠ v ∧ ∃ p, p ∈ g.parents v ∧ x ∈ g.children p :=
+  mem_siblings
+
+example : diamond.siblings 1 = [2] := by decide
+example : threeParents.siblings 3 = [5] := by decide
+
+/-! ## go_to -/
+
+/-- **Tier 2.** When `go_to` answers, the answer is exactly the set of directed paths from `u`
+    to `w` (as vertex lists), each once. -/
+theorem go_to_all_paths {g : Dag} (wf : DWF g) {u w : Nat} (hu : u ∈ g.nodes)
+    {ps : List (List Nat)} (h : g.goTo u w = some ps) :
+    (∀ l, l ∈ ps ↔ g.PathFromTo u w l) ∧ ps.Nodup := by
+  unfold goTo at h
+  split at h
+  · rename_i huw
+    subst huw
+    simp only [Option.some.injEq] at h
+    subst h
+    refine ⟨?_, by simp⟩
+    intro l
+    simp only [mem_singleton]
+    constructor
+    · rintro rfl; exact ⟨trivial, rfl, rfl⟩
+    · rintro ⟨hp, hh, hl⟩
+      cases l with
+      | nil => exact absurd hp not_isPath_nil
+      | cons a q =>
+        simp only [head?_cons, Option.some.injEq] at hh
+        subst hh
+        cases q with
+        | nil => rfl
+        | cons b q =>
+          exfalso
+          have hnd := (path_nodup wf hu hp).1
+          rw [getLast?_cons_cons] at hl
+          exact (nodup_cons.1 hnd).1 (mem_of_getLast? hl)
+  · rename_i huw
+    split at h
+    · cases h
+    · simp only [Option.some.injEq] at h
+      subst h
+      have hfuel : g.fuel = g.nodes.length + 1 := rfl
+      rw [hfuel, goRec_snd_of_ne huw]
+      refine ⟨?_, nodup_goAll wf hu⟩
+      intro l
+      constructor
+      · intro hl
+        obtain ⟨q, hq, hp, hlast, _⟩ := mem_goAll_imp hl
+        simp only [nil_append] at hq
+        subst hq
+        exact ⟨hp, rfl, hlast⟩
+      · rintro ⟨hp, hh, hlast⟩
+        cases l with
+        | nil => exact absurd hp not_isPath_nil
+        | cons a q =>
+          simp only [head?_cons, Option.some.injEq] at hh
+          subst hh
+          have hlen := path_length_le wf hu hp
+          have := mem_goAll_of wf (f := g.nodes.length + 1) (path := []) hu hp hlast
+            (by simp at hlen; omega)
+          simpa using this
+
+example : diamond.goTo 0 3 = some [[0, 1, 3], [0, 2, 3]] := by decide
+example : ∀ l, l ∈ [[0, 1, 3], [0, 2, 3]] ↔ diamond.PathFromTo 0 3 l :=
+  (go_to_all_paths diamond_wf (by decide) (by decide)).1
+
+/-- **Tier 2.** `go_to` refuses (TreeError) exactly when the target is a different node that
+    cannot be reached. -/
+theorem go_to_refused_iff {g : Dag} (wf : DWF g) {u w : Nat} (hu : u ∈ g.nodes) :
+    g.goTo u w = none ↔ u ≠ w ∧ ¬ g.Reach u w := by
+  unfold goTo
+  split
+  · rename_i huw; simp [huw]
+  · rename_i huw
+    split
+    · rename_i hnd
+      have : ¬ g.Reach u w := fun hr => hnd ((mem_descendants wf hu).2 hr)
+      simp [huw, this]
+    · rename_i hd
+      have hd' : w ∈ g.descendants u := Classical.not_not.1 hd
+      have := (mem_descendants wf hu).1 hd'
+      simp [this]
+
+example : diamond.goTo 1 2 = none := by decide
+example : (1 : Nat) ≠ 2 ∧ ¬ diamond.Reach 1 2 :=
+  (go_to_refused_iff diamond_wf (by decide)).1 (by decide)
+
+end C16
